@@ -35,7 +35,7 @@ Init == /\ \/ \E fam \in AllocFamilies : \E n \in 0..fam.n : \E q \in [1..n -> f
 Eval == /\ ~done
         /\ out' = IF inp.kind = "alloc"
                   THEN LET m == Alloc(inp.s) IN [m |-> m, jps |-> JoinPoints(m), tpj |-> TasksPerJP(m)]
-                  ELSE [a |-> Assign(inp.hosts, inp.n)]
+                  ELSE LET a == Assign(inp.hosts, inp.n) IN [a |-> a, plan |-> StartPlan(a)]
         /\ done' = TRUE
         /\ UNCHANGED inp
 
@@ -43,7 +43,8 @@ Spec == Init /\ [][Eval]_vars
 
 PropertyHolds ==
     done => IF inp.kind = "alloc" THEN AllocFailing(inp.s, out.m, out.jps, out.tpj) = {}
-            ELSE AssignFailing(inp.hosts, inp.n, out.a) = {}
+            ELSE /\ AssignFailing(inp.hosts, inp.n, out.a) = {}
+                 /\ StartFailing(inp.n, out.a, PlanCreated(out.plan), PlanSent(out.plan)) = {}
 
 (* structural facts of the transcription that are not part of the property statement (model sanity) *)
 ModelSanity ==
@@ -52,6 +53,18 @@ ModelSanity ==
         /\ Len(out.jps) = Len(inp.s) + 1
         /\ \A k \in 1..Len(out.jps) : out.jps[k].id = k - 1
         /\ (~HasEmptyParallel(inp.s) => Len(out.tpj) = Len(inp.s))
+
+(* self-test of the start clauses: a container that is only reset per host (the k-th worker of a host also gets the  *)
+(* rows of the earlier workers of that host) must be rejected wherever a host has two workers with clients           *)
+CumulativeSent(plan) ==
+    AsSeq([k \in 1..Len(plan) |->
+        LET G[j \in 0..k] == IF j = 0 THEN <<>>
+                             ELSE G[j-1] \o (IF plan[j].host = plan[k].host THEN plan[j].clients ELSE <<>>)
+        IN [wid |-> plan[k].wid, host |-> plan[k].host, rows |-> G[k], rowok |-> TRUE, ctx |-> plan[k].clients]])
+StartSelfTest ==
+    (done /\ inp.kind = "assign") =>
+        LET twoOnAHost == \E x, y \in 1..Len(out.plan) : x # y /\ out.plan[x].host = out.plan[y].host
+        IN twoOnAHost <=> StartFailing(inp.n, out.a, PlanCreated(out.plan), CumulativeSent(out.plan)) # {}
 
 -----------------------------------------------------------------------------
 (* bounded input sets *)
